@@ -846,7 +846,15 @@ static carquet_status_t load_next_page_mmap(
         return load_next_page_mmap(reader, error);
     }
 
-    if (page_header.type != CARQUET_PAGE_DATA && page_header.type != CARQUET_PAGE_DATA_V2) {
+    if (page_header.type == CARQUET_PAGE_DATA_V2) {
+        /* The decoder below reads the v1 header and the v1 body layout; a v2
+         * page (levels outside the compressed section, no length prefixes)
+         * would be decoded to wrong values */
+        CARQUET_SET_ERROR(error, CARQUET_ERROR_NOT_IMPLEMENTED, "Data page v2 is not supported");
+        return CARQUET_ERROR_NOT_IMPLEMENTED;
+    }
+
+    if (page_header.type != CARQUET_PAGE_DATA) {
         CARQUET_SET_ERROR(error, CARQUET_ERROR_INVALID_PAGE, "Expected data page");
         return CARQUET_ERROR_INVALID_PAGE;
     }
@@ -1068,7 +1076,15 @@ static carquet_status_t load_next_page_fread(
         return load_next_page_fread(reader, error);
     }
 
-    if (page_header.type != CARQUET_PAGE_DATA && page_header.type != CARQUET_PAGE_DATA_V2) {
+    if (page_header.type == CARQUET_PAGE_DATA_V2) {
+        /* The decoder below reads the v1 header and the v1 body layout; a v2
+         * page (levels outside the compressed section, no length prefixes)
+         * would be decoded to wrong values */
+        CARQUET_SET_ERROR(error, CARQUET_ERROR_NOT_IMPLEMENTED, "Data page v2 is not supported");
+        return CARQUET_ERROR_NOT_IMPLEMENTED;
+    }
+
+    if (page_header.type != CARQUET_PAGE_DATA) {
         CARQUET_SET_ERROR(error, CARQUET_ERROR_INVALID_PAGE, "Expected data page");
         return CARQUET_ERROR_INVALID_PAGE;
     }
